@@ -57,8 +57,12 @@ IsHex(c)   == IsDigit(c) \/ (c >= 97 /\ c <= 102) \/ (c >= 65 /\ c <= 70)
 IsBin(c)   == c = 48 \/ c = 49
 IsWordCh(c) == IsUpper(c) \/ IsLower(c) \/ IsDigit(c) \/ c = 95 \/ c = 36
 
+\* linear-time maximum / minimum (FiniteSetsExt!Max is a quadratic CHOOSE)
+MaxOf(S) == FoldSet(LAMBDA a, b : IF a > b THEN a ELSE b, -1, S)
+MinOf(S) == LET m == MaxOf(S) IN FoldSet(LAMBDA a, b : IF a < b THEN a ELSE b, m, S)
+
 RECURSIVE Sorted(_)
-Sorted(S) == IF S = {} THEN <<>> ELSE LET m == Min(S) IN <<m>> \o Sorted(S \ {m})
+Sorted(S) == IF S = {} THEN <<>> ELSE LET m == MinOf(S) IN <<m>> \o Sorted(S \ {m})
 
 ---------------------------------------------------------------------------
 (* Lines *)
@@ -77,9 +81,9 @@ SplitLines(t) ==
   IN IF rest <= Len(t) THEN Append(full, SubSeq(t, rest, Len(t))) ELSE full
 
 \* length of the maximal whitespace prefix
-LeadLen(line) ==
-  LET NW == {j \in 1..Len(line) : line[j] \notin WS}
-  IN IF NW = {} THEN Len(line) ELSE Min(NW) - 1
+RECURSIVE WsRun(_, _)
+WsRun(line, j) == IF j <= Len(line) /\ line[j] \in WS THEN WsRun(line, j + 1) ELSE j - 1
+LeadLen(line) == WsRun(line, 1)
 Lead(line) == SubSeq(line, 1, LeadLen(line))
 
 IsPrefix(a, b) == Len(a) <= Len(b) /\ SubSeq(b, 1, Len(a)) = a
@@ -91,14 +95,26 @@ InSet(re, c) ==
   LET hit == (re.ws /\ c \in WS) \/ (\E r \in 1..Len(re.rs) : re.rs[r][1] <= c /\ c <= re.rs[r][2])
   IN IF re.neg THEN ~hit ELSE hit
 
-RECURSIVE Ends(_, _, _), CatEnds(_, _, _, _), RepEnds(_, _, _, _, _, _, _)
+RECURSIVE Ends(_, _, _), CatEnds(_, _, _, _), RepEnds(_, _, _, _, _, _, _), RunLen(_, _, _, _)
+
+\* number of consecutive characters from position p that are in class cls, counted up to lim
+\* (lim = -1: no limit)
+RunLen(cls, s, p, lim) ==
+  IF lim # 0 /\ p <= Len(s) /\ InSet(cls, s[p])
+  THEN 1 + RunLen(cls, s, p + 1, IF lim = -1 THEN -1 ELSE lim - 1) ELSE 0
+
+\* cls{mn,mx} from position p: a run of r class characters can be left after mn..min(r,mx) of them
+RepSetEnds(cls, mn, mx, s, p) ==
+  LET r == RunLen(cls, s, p, mx) IN IF r < mn THEN {} ELSE (p + mn)..(p + r)
 
 Ends(re, s, i) ==
   CASE re.k = "set" -> IF i <= Len(s) /\ InSet(re, s[i]) THEN {i + 1} ELSE {}
     [] re.k = "eol" -> IF i = Len(s) + 1 THEN {i} ELSE {}
     [] re.k = "alt" -> UNION {Ends(re.subs[k], s, i) : k \in 1..Len(re.subs)}
     [] re.k = "cat" -> CatEnds(re.subs, 1, s, {i})
-    [] re.k = "rep" -> RepEnds(re.subs[1], re.min, re.max, s, {i}, 0, {})
+    [] re.k = "rep" -> IF re.subs[1].k = "set"
+                       THEN RepSetEnds(re.subs[1], re.min, re.max, s, i)      \* same set, computed directly
+                       ELSE RepEnds(re.subs[1], re.min, re.max, s, {i}, 0, {})
 
 CatEnds(subs, k, s, P) ==
   IF k > Len(subs) \/ P = {} THEN P
@@ -116,7 +132,7 @@ RepEnds(sub, mn, mx, s, F, n, acc) ==
 
 \* length of the longest match of pattern p at position i of s; -1: no match
 MatchLen(p, s, i) ==
-  LET E == Ends(Patterns[p].re, s, i) IN IF E = {} THEN -1 ELSE Max(E) - i
+  LET E == Ends(Patterns[p].re, s, i) IN IF E = {} THEN -1 ELSE MaxOf(E) - i
 
 \* Declarative: pattern p with length l is THE token at (s, i):
 \* longest over all patterns, and among the longest the earliest in the table.
@@ -240,17 +256,20 @@ EnabledCount(st) ==
        [] x = "fin" -> En_Finish(st)})
 
 \* The function: scan a whole line in one go (same Best, same token construction) ...
-RECURSIVE ScanRest(_)
+\* r = [ok, toks, col]: tokens of line ln from column col on; on failure col is the offending column
+RECURSIVE ScanLine(_, _, _, _)
+ScanLine(line, ln, col, acc) ==
+  IF col > Len(line) THEN [ok |-> TRUE, toks |-> acc, col |-> col]
+  ELSE LET b == Best(line, col)
+       IN IF b.len = 0 THEN [ok |-> FALSE, toks |-> acc, col |-> col]
+          ELSE ScanLine(line, ln, col + b.len,
+                        IF Patterns[b.pat].emit
+                        THEN Append(acc, Tok(Patterns[b.pat].sym, SubSeq(line, col, col + b.len - 1), ln, col, ln, col + b.len))
+                        ELSE acc)
 ScanRest(st) ==
-  IF ~InLine(st) THEN st
-  ELSE LET b == Best(Cur(st), st.col)
-       IN IF b.len = 0 THEN Do_Unrecognized(st)
-          ELSE IF Patterns[b.pat].emit
-               THEN ScanRest([st EXCEPT
-                      !.pending = Append(@, Tok(Patterns[b.pat].sym, SubSeq(Cur(st), st.col, st.col + b.len - 1),
-                                                st.lineNo, st.col, st.lineNo, st.col + b.len)),
-                      !.col = @ + b.len])
-               ELSE ScanRest([st EXCEPT !.col = @ + b.len])
+  LET r == ScanLine(Cur(st), st.lineNo, st.col, st.pending)
+  IN IF r.ok THEN [st EXCEPT !.pending = r.toks, !.col = r.col]
+     ELSE Do_Unrecognized([st EXCEPT !.pending = r.toks, !.col = r.col])
 
 \* ... then settle indentation and close the line; at the end close the open levels.
 RECURSIVE Run(_)
